@@ -79,22 +79,25 @@ def bodyOfPieces (f : Form) (e : Exc) (ps : List Piece) : Text :=
   | .json => jsonBody (flattenPieces ps) e.status e.title
   | _ => flattenPieces ps
 
-/-- REFINEMENT: `prepare` is the piece-wise rendering with the tags forgotten -/
+/-- REFINEMENT: `prepare` is the piece-wise rendering with the tags forgotten (of the exception whose Content-Type
+header the chosen branch has overwritten) -/
 theorem prepare_eq_spec (offered : List Text) (e : Exc) (environ : List (Text × Text)) (q : Text → Nat) :
     prepare offered e environ q =
       if e.hasBody || e.emptyBody then .ok none
       else
         let f := formOf (chooseMatch q offered)
-        (specRender f e environ).map fun ps => some ⟨f, contentTypeOf f, bodyOfPieces f e ps⟩ := by
+        (specRender f (e.withContentType f) environ).map fun ps =>
+          some (respOf f (e.withContentType f) (bodyOfPieces f (e.withContentType f) ps)) := by
   unfold prepare
   split
   · rfl
   · simp only []
     generalize formOf (chooseMatch q offered) = f
-    have hb := specBody_flatten f e environ
+    generalize e.withContentType f = e'
+    have hb := specBody_flatten f e' environ
     unfold specRender
     rw [← hb]
-    cases hsb : specBody f e environ with
+    cases hsb : specBody f e' environ with
     | error err => simp [Except.map]
     | ok body =>
       simp only [Except.map]
@@ -102,12 +105,36 @@ theorem prepare_eq_spec (offered : List Text) (e : Exc) (environ : List (Text ×
       | json => simp [bodyOfPieces]
       | html =>
         simp only []
-        rw [substitute_eq_fill, ← fillP_flatten .pageLit (pageEnvP e.status body) _ (pageEnvP_flatten e.status body)]
-        cases fillP .pageLit (pageEnvP e.status body) (tokenize e.htmlTmpl) <;> simp [Except.map, bodyOfPieces]
+        rw [substitute_eq_fill, ← fillP_flatten .pageLit (pageEnvP e'.status body) _ (pageEnvP_flatten e'.status body)]
+        cases fillP .pageLit (pageEnvP e'.status body) (tokenize e'.htmlTmpl) <;> simp [Except.map, bodyOfPieces]
       | plain =>
         simp only []
-        rw [substitute_eq_fill, ← fillP_flatten .pageLit (pageEnvP e.status body) _ (pageEnvP_flatten e.status body)]
-        cases fillP .pageLit (pageEnvP e.status body) (tokenize e.plainTmpl) <;> simp [Except.map, bodyOfPieces]
+        rw [substitute_eq_fill, ← fillP_flatten .pageLit (pageEnvP e'.status body) _ (pageEnvP_flatten e'.status body)]
+        cases fillP .pageLit (pageEnvP e'.status body) (tokenize e'.plainTmpl) <;> simp [Except.map, bodyOfPieces]
+
+/-! ### the Content-Type header -/
+
+theorem getHeader_append_single (name v : Text) (hs : List (Text × Text)) :
+    getHeader name (hs ++ [(name, v)]) = some v := by
+  induction hs with
+  | nil => simp [getHeader, headerNameEq]
+  | cons kv rest ih =>
+    obtain ⟨k, w⟩ := kv
+    simp only [List.cons_append, getHeader, ih]
+
+/-- whatever Content-Type entries (any number, any spelling of the name, any value) the caller left on the exception:
+after the assignment the header read back is the assigned one -/
+theorem getHeader_setHeader (name v : Text) (hs : List (Text × Text)) :
+    getHeader name (setHeader name v hs) = some v := by
+  unfold setHeader
+  exact getHeader_append_single name v _
+
+theorem contentTypeHeader_withContentType (e : Exc) (f : Form) :
+    (e.withContentType f).contentTypeHeader = contentTypeHeaderOf f := by
+  simp [Exc.contentTypeHeader, Exc.withContentType, getHeader_setHeader]
+
+theorem mimeOfHeader_contentTypeHeaderOf (f : Form) : mimeOfHeader (contentTypeHeaderOf f) = contentTypeOf f := by
+  cases f <;> decide
 
 /-- what each piece must be, by origin: supplied text is exactly that text escaped for the form; `br`, the comment
 delimiters and the status are the fixed texts; a template literal is one character -/
